@@ -580,11 +580,21 @@ impl Prop for C06 {
             v.iter().any(|p| *p != v[0])
         };
         if case.fam == "layout-uni" {
-            // which characters count as blanks beyond space and tab is the tool's choice: a layout
-            // it refuses altogether is not judged; one it answers must mean what the plain layout means
-            match obs::eval(env.db(), &text) {
-                Some(rs) if rs.iter().any(|r| r.is_ok()) => {}
-                _ => return Verdict::DontCare("a blank of a kind other than space and tab, and the tool refuses the query"),
+            // which characters count as blanks beyond space and tab is the tool's choice, and it is
+            // asked about each of them alone (`2<c>+<c>3` must be 5): only a layout made of
+            // characters the tool takes for blanks is judged - then their number and mixture must
+            // not matter
+            let mut seen: Vec<char> = Vec::new();
+            for c in text.chars().filter(|c| !c.is_ascii() && c.is_whitespace()) {
+                if seen.contains(&c) {
+                    continue;
+                }
+                seen.push(c);
+                let five = BigRational::from_integer(5.into());
+                match obs::eval_one(env.db(), &format!("2{c}+{c}3")) {
+                    Ok(Res::Ok { value, unit, .. }) if value == five && unit.is_empty() => {}
+                    _ => return Verdict::DontCare("a character other than space and tab that the tool does not take for a blank"),
+                }
             }
         }
         if let Some(w) = wrap {
@@ -633,7 +643,7 @@ impl Prop for C06 {
             "operator_sequence_length_max": 5,
             "bracketings": "all (Catalan 1,2,5,14,42)",
             "layouts": {"all_combinations_up_to_operators": 2, "slot_deviations": tier.pick(1, 2)},
-            "blank_kinds": ["none", "one space", "two spaces", "tab", "space+tab", "tab+space", "2 spaces+tab+space (mixed kinds only as 1-/2-slot deviations)", "NBSP, space+NBSP, NBSP+space, tab+EM SPACE, THIN SPACE+NBSP (as 1-/2-slot deviations of the one-blank layout; judged when the tool answers)"],
+            "blank_kinds": ["none", "one space", "two spaces", "tab", "space+tab", "tab+space", "2 spaces+tab+space (mixed kinds only as 1-/2-slot deviations)", "NBSP, space+NBSP, NBSP+space, tab+EM SPACE, THIN SPACE+NBSP (as 1-/2-slot deviations of the one-blank layout; judged when the tool takes each of these characters, asked alone, for a blank)"],
         })
     }
 }
